@@ -179,10 +179,11 @@ namespace TAO_PEGTL_NAMESPACE
             internal::verif::hooks.buffer_require( this, std::size_t( m_current.data - m_buffer.get() ), amount, m_maximum, std::size_t( m_end - m_current.data ) );
          }
 #endif
-         if( m_current.data + amount <= m_end ) {
+         // Compare sizes, not pointers: m_current.data + amount overflows for huge amounts, e.g. everything's require( SIZE_MAX ).
+         if( amount <= buffer_occupied() ) {
             return;
          }
-         if( m_current.data + amount > m_buffer.get() + m_maximum ) {
+         if( amount > buffer_occupied() + buffer_free_after_end() ) {
 #if defined( __cpp_exceptions )
             throw std::overflow_error( "require() beyond end of buffer" );
 #else
